@@ -59,8 +59,9 @@ def _check_marks_seq(T, sub, case, who, items, kindmap, text, lc, exact):
                     T.violation(sub, 'line-column', case, detail='%s %s index=%d has (%d,%d), counting breaks gives %r'
                                 % (who, type(it).__name__, m.index, m.line, m.column, lc.at(m.index)))
                     return
+        if exact:
             nm = type(it).__name__
-            if nm == 'ScalarToken' and it.plain and it.style is None:
+            if nm == 'ScalarToken' and it.plain and not it.style:      # the C binding gives a plain token the style ''
                 sl = text[sm.index:em.index]
                 if not any(c in sl for c in '\n\r\x85\u2028\u2029') and sl != it.value:
                     T.violation(sub, 'slice', case, detail='%s plain scalar value %r but text[%d:%d]=%r' % (who, it.value, sm.index, em.index, sl))
